@@ -123,7 +123,10 @@ CHECKS["C03"] = {
     "rule": ("[domains that model booleans get a third phase: the boolean-focus alphabet = every boolean operation (assignments of constraints and "
              "constants, negated copies, and/or/xor, three select forms incl. lhs among the operands, int<->bool casts, assumes, forget) + 10 "
              "numerical operations that interact with the recorded facts (incl. expand onto a forgotten variable), one level deeper than the core "
-             "phase] for each of 35 domain instantiations (intervals, constants, signs, sign-constants, interval-congruences, sparse/split DBM, "
+             "phase; relational domains (zones, octagons and the wrappers around them) get a fourth phase: 20 operations over FOUR variables "
+             "x,y,z,w (difference constraints along a chain and back, assignments between them, forget, join, meet, widening, save, swap), one "
+             "level deeper than the core phase, witnesses over {-2..2}^4. In the quick tier the wrappers run the two focus phases with their "
+             "first configuration only] for each of 35 domain instantiations (intervals, constants, signs, sign-constants, interval-congruences, sparse/split DBM, "
              "split octagons, disjunctive intervals, term domains x3, uf, fixed-tvpi, flat boolean x2, reduced product, powerset, value "
              "partitioning, lookahead widening, packing, array smashing x3, array adaptive x4, region x7) and each parameter configuration "
              "(quick: default + every single-flag flip; thorough: full product, e.g. 16 closure settings for zones and octagons, 32 region settings): "
